@@ -2,6 +2,7 @@ package fixedn
 
 import (
 	"cmp"
+	"errors"
 	"strconv"
 	"strings"
 
@@ -73,7 +74,10 @@ func Fixed8FromString(s string) (Fixed8, error) {
 	if err != nil {
 		return 0, err
 	}
-	return Fixed8(num.Int64()), err
+	if !num.IsInt64() {
+		return 0, errors.New("value is out of Fixed8 range")
+	}
+	return Fixed8(num.Int64()), nil
 }
 
 // UnmarshalJSON implements the json unmarshaller interface.
